@@ -127,6 +127,18 @@ def judge(case):
                 bad('to_str-disagrees-on-exotic-line', f'odd line {odd!r}: to_list={lst!r} '
                                                       f'to_str={ind.to_str(list(lines) + [odd])!r}')
                 break
+        # other ways of handing over the same content: a single bare string instead of a
+        # one-element list, and bare scalars that are "falsy" (0, 0.0, False, '')
+        if len(lines) == 1:
+            if ind.to_list(lines[0]) != res or ind.to_str(lines[0]) != ind.to_str(list(lines)):
+                bad('bare-string-content', f'to_list({lines[0]!r})={ind.to_list(lines[0])!r} to_list([..])={res!r}')
+        if not lines:
+            for scalar in (0, 0.0, False, 7, -1, True, ''):
+                via_list = ind.to_list([scalar])
+                if ind.to_list(scalar) != via_list or ind.to_str(scalar) != ind.to_str([scalar]):
+                    bad('bare-scalar-content', f'to_list({scalar!r})={ind.to_list(scalar)!r} but to_list([{scalar!r}])={via_list!r}')
+                if scalar != '' and spec_ok([str(scalar)], via_list, cfg):
+                    bad('scalar-content', f'to_list([{scalar!r}])={via_list!r}: {spec_ok([str(scalar)], via_list, cfg)}')
         # TextBlock.indent, explicit argument and pre-set indentor, with and without header
         for header, how in itertools.product((None, 'Hdr'), ('arg', 'preset')):
             blk = TextBlock(list(lines), header=header)
